@@ -566,7 +566,15 @@ func multiStep(r *Rng, ms []*mbuf, big bool) {
 			m.drain()
 		}
 	case c == 18:
-		m.fillTo(r, m.expect+r.PickInt(500, 4096, 5000))
+		if r.Bool() {
+			m.b.Reset() // the embedded buffer's Reset: everything unread is gone
+			m.q, m.head, m.expect = m.q[:0], 0, 0
+			if m.b.Len() != 0 && m.fail == 0 {
+				m.fail = 3
+			}
+		} else {
+			m.fillTo(r, m.expect+r.PickInt(500, 4096, 5000))
+		}
 	default:
 		if big {
 			m.fillTo(r, m.expect+r.PickInt(66000, 70000, 4096))
@@ -701,6 +709,15 @@ func run(in Sx) Sx {
 			}
 		case 3:
 			outs = append(outs, List(Int(3), Bytes(b.Bytes())))
+		case 4:
+			if p, _ := Catch(func() { b.Write(o.At(1).AsBytes()) }); p {
+				outs = append(outs, List(Int(2), Int(int64(b.Len()))))
+			} else {
+				outs = append(outs, List(Int(0), Int(int64(b.Len()))))
+			}
+		case 5:
+			b.Reset()
+			outs = append(outs, List(Int(0), Int(int64(b.Len()))))
 		default:
 			panic("bad op")
 		}
@@ -919,7 +936,40 @@ func gen(a Args, out *Out) {
 		n := r.Range(1, 40)
 		w := genWrites(r, n, out)
 		var ops []Sx
-		switch r.Intn(6) {
+		switch r.Intn(7) {
+		case 6: // FIFO use mixed with the embedded bytes.Buffer's own Write(bytes) and Reset()
+			var q []tv
+			for step := r.Range(10, 60); step > 0; step-- {
+				switch c := r.Intn(12); {
+				case c < 5:
+					t := w[r.Intn(len(w))]
+					q = append(q, t)
+					ops = append(ops, wop(t))
+				case c < 8 && len(q) > 0:
+					if r.Chance(1, 3) {
+						ops = append(ops, pop(q[0].k))
+					}
+					ops = append(ops, rop(q[0].k))
+					q = q[1:]
+				case c < 10:
+					raw := r.Bytes(r.PickInt(0, 1, 2, 3, 8, 17))
+					for _, x := range raw {
+						q = append(q, tv{kU8, Uint(uint64(x))})
+					}
+					ops = append(ops, List(Int(4), Bytes(raw)))
+				case c == 10:
+					ops = append(ops, Ints(5))
+					q = nil
+				default:
+					ops = append(ops, Ints(3))
+				}
+			}
+			for _, t := range q {
+				ops = append(ops, rop(t.k))
+			}
+			ops = append(ops, Ints(3))
+			emit("raw-reset", ops)
+			continue
 		case 4: // FIFO use with peeks of ANY kind at ANY time (wider than what follows / remains too)
 			pending, next := 0, 0
 			for next < len(w) || pending > 0 {
